@@ -154,12 +154,16 @@ def real_expand(rs: dict, cwd: str):
         return ("reject", type(e).__name__)
     except RunSpaceMaxRunsExceededError as e:
         return ("cap", e.actual_runs, e.max_runs)
+    except Exception as e:  # anything else is not one of the documented rejections
+        return ("foreign-exception", f"{type(e).__name__}: {e}")
     return ("ok", runs, meta)
 
 
 def judge(rs: dict, cwd: str, tabs) -> Optional[Tuple[str, str]]:
     exp = ref.plan(rs, tabs)
     got = real_expand(rs, cwd)
+    if got[0] == "foreign-exception":
+        return (f"undocumented-exception|expected-{exp[0]}", f"documentation prescribes {exp[0]} {str(exp[1:3])[:80]}; expand_run_space raised {got[1][:160]}")
     if exp[0] == "reject":
         if got[0] != "reject":
             return ("invalid-spec-accepted", f"documentation rejects ({exp[1]}); implementation returned {got[0]} {str(got[1:])[:200]}")
@@ -248,6 +252,8 @@ def huge_specs() -> List[Tuple[str, dict, int]]:
         ("single-block-1e9", {"max_runs": 10, "blocks": [{"mode": "combinatorial", "context": {k: vals for k in keys[:3]}}]}, 10 ** 9),
         ("source-combinatorial-1e12", {"max_runs": 1000, "blocks": [{"mode": "combinatorial", "context": {k: vals for k in keys[:3]},
                                                                       "source": {"format": "json", "path": "big_cols.json", "mode": "combinatorial"}}]}, 10 ** 12),
+        # beyond the range of a float: the planned size must stay an exact integer all the way into the error
+        ("four-blocks-1e320", {"max_runs": 1000, "blocks": [{"mode": "combinatorial", "context": {f"{p}{i}": list(range(10)) for i in range(80)}} for p in "wxyz"]}, 10 ** 320),
         ("two-blocks-1e18", {"max_runs": 1000, "blocks": [{"mode": "combinatorial", "context": {k: vals for k in keys[:3]}},
                                                            {"mode": "combinatorial", "context": {k: vals for k in keys[3:6]}}]}, 10 ** 18),
     ]
